@@ -29,15 +29,31 @@ def check(res):
     cases = [(s, dict(kind="generator-history", **m)) for s, m in progs.generator_history_programs(seed, 600 if tier == "quick" else 20000)]
     cases += [(s, dict(kind="consumer", **m)) for s, m in progs.consumer_programs()]
     cases += [(s, dict(kind="laziness", **m)) for s, m in progs.laziness_programs()]
+    # exception state and suspension: a yield inside an except handler / finally, then the rest of the handler
+    for nm, body in [("raise-after-yield", "yield 1\n        raise"), ("value-after-yield", "yield 1\n        print('still', isinstance(e, ValueError))\n        yield 2"),
+                     ("nested-handled-after-yield", "yield 1\n        try:\n            raise KeyError('k')\n        except KeyError:\n            print('inner')\n        yield 2")]:
+        src = ("def g():\n    try:\n        raise ValueError('x')\n    except ValueError as e:\n        %s\n    yield 'end'\nit = g()\nprint(next(it))\n"
+               "try:\n    print(next(it))\n    print(next(it, 'stop'))\nexcept ValueError:\n    print('ValueError')\nexcept RuntimeError:\n    print('RuntimeError')\n" % body)
+        cases.append((src, dict(kind="handler-yield", form=nm)))
     srcs = [c[0] for c in cases]
     impl = pydiff.run_impl(srcs); ref = pydiff.run_ref(srcs)
-    mism = []; nontrivial = 0
+    mism = []; nontrivial = 0; known = {}
+    findings = vlib.load_findings("C05")
     for (src, case), a, b in zip(cases, impl, ref):
         ga = (a.get("out", ""), a.get("err", "")); gb = (b.get("out", ""), b.get("err", ""))
         if a.get("panic") or a.get("crash") or a.get("hang"): ga = ("<GO PANIC/HANG %s>" % (a.get("panic") or a.get("crash") or "hang"), "")
         if case["kind"] == "consumer" and case["how"] != "none": nontrivial += 1
         if case["kind"] == "generator-history" and len(case["live"]) > 1: nontrivial += 1
-        if ga != gb: mism.append((case, src, ga, gb))
+        if ga != gb:
+            hit = None
+            for f in findings:
+                mt = MATCHERS.get(f.get("matcher"))
+                if mt and mt(case): hit = f; break
+            if hit: known.setdefault(hit["id"], (case, ga, gb))
+            else: mism.append((case, src, ga, gb))
+    for fid, (case, ga, gb) in known.items():
+        f = [x for x in findings if x["id"] == fid][0]
+        res.known.append("%s: %s (observed %s, Python %s)" % (fid, f["input_class"], ga[0][-60:].replace("\n", " | "), gb[0][-60:].replace("\n", " | ")))
     res.coverage.update(evaluations=len(cases), distinct_nontrivial=nontrivial, programs=len(cases),
         rule="(a) seeded histories of next()/send(v) over 1-3 live generators drawn from a pool (loops, sent values, nested try/finally, return values, yield from, raising bodies); (b) every consumer (for, comprehensions, unpacking, star-call, list/tuple/set/sum/min/max/sorted/zip/map/filter/enumerate/any/all/in/str.join/next) x producer kind (generator, user iterator class, __getitem__ sequence, builtin iterator) x position 0..3 at which the producer raises StopIteration (class), StopIteration() (instance) or KeyError; non-trivial = the producer stops early/raises, or several generators are interleaved",
         samples=[dict(case=cases[0][1], stdout=impl[0].get("out", "")[:300])],
@@ -53,6 +69,9 @@ def check(res):
     if not p_ok or rc != 0:
         res.violation("proof-broken", "C05: an iteration-termination test in the Go source is not 'StopIteration (class or instance)'",
                       dict(theorem_or_correspondence="C05_all_sites_sound over Gen/IterTests.v", unsound_sites=unsound, coqc_error=[l for l in mlog.splitlines() if "rror" in l][-6:]), no_input=True)
+
+def m_handler_yield_raise(case): return case.get("kind") == "handler-yield" and case.get("form") == "raise-after-yield"
+MATCHERS = {"c05.handler_yield_raise": m_handler_yield_raise}
 
 def replay(path):
     d = json.load(open(path)); print(json.dumps(d, indent=1)[:3000]); return 1
